@@ -519,11 +519,17 @@ func (r *PipelineRunner) JobCompleted(id uuid.UUID, err error) {
 }
 
 func (r *PipelineRunner) startJobsOnWaitList(pipeline string) {
-	// Check wait list if another job is queued
-	waitList := r.waitListByPipeline[pipeline]
-
 	// Schedule as many jobs as are schedulable (also process if the schedule action is start delay and check individual jobs if they can be started)
-	for len(waitList) > 0 && r.resolveDequeueJobAction(waitList[0]) == scheduleActionStart {
+	//
+	// The wait list is re-read and written back for every single job, because startJob can call this function again
+	// (if the job could not be started) - working on a local copy would start jobs twice.
+	for {
+		// Check wait list if another job is queued
+		waitList := r.waitListByPipeline[pipeline]
+		if len(waitList) == 0 || r.resolveDequeueJobAction(waitList[0]) != scheduleActionStart {
+			break
+		}
+
 		queuedJob := waitList[0]
 		// Queued job has a start delay timer set - wait for it to fire
 		if queuedJob.startTimer != nil {
@@ -531,7 +537,7 @@ func (r *PipelineRunner) startJobsOnWaitList(pipeline string) {
 			break
 		}
 
-		waitList = waitList[1:]
+		r.waitListByPipeline[pipeline] = waitList[1:]
 
 		r.startJob(queuedJob)
 
@@ -541,7 +547,6 @@ func (r *PipelineRunner) startJobsOnWaitList(pipeline string) {
 			WithField("jobID", queuedJob.ID).
 			Debugf("Dequeue: scheduled job execution")
 	}
-	r.waitListByPipeline[pipeline] = waitList
 }
 
 // IterateJobs calls process for each job in a read lock.
